@@ -197,7 +197,7 @@ pub fn bspec(c: &BCfg, bound: u64, props: &[&str]) -> Value {
     json!({"mode": "B", "cfg": c.to_json(), "bound": bound, "max_exec": 3_000_000u64, "props": props})
 }
 
-fn peer_variants(role: Role) -> Vec<(bool, bool, bool)> {
+pub fn peer_variants(role: Role) -> Vec<(bool, bool, bool)> {
     match role {
         // (re-ACK duplicates, retransmit ACK on timeout, dally) — all RFC-conformant receivers
         Role::Sender => vec![(true, true, false), (true, false, false), (false, true, false), (true, true, true)],
@@ -307,4 +307,55 @@ pub fn c15_check(tier: Tier) -> Outcome {
     out.rule = "E1 Mode B on transfers longer than 65535 blocks (blksize 8): real Worker + reference peer; every placement of up to F faults (drop, duplicate, delay-past-timeout, swap) restricted to the datagrams that carry or acknowledge absolute blocks 65530..65541 (131066..131077 for the second wrap), window sizes that put the wrap at the end / start / middle of a window, both roles. Oracle: slice monitor with absolute block tracking on every DATA, byte identity of the reassembled / stored file, ACK-implies-stored with file tail snapshots. non-trivial = executions with a distinct worker trace.".into();
     out.assumptions = vec!["fault positions outside the wrap neighbourhood are covered by C01/C02/C04 on short transfers".into()];
     out
+}
+
+// ---------------------------------------------------------------- Mode B parts of C01 / C02
+
+pub fn c01_b_cells(tier: Tier) -> Vec<Value> {
+    let p = ["C01"];
+    let mut cells = vec![];
+    let blk = 8usize;
+    for ws in 1..=4u16 {
+        let w = ws as usize;
+        let mut lens = vec![0, 1, blk, blk + 1, w * blk, w * blk + 1, (w + 1) * blk, 3 * w * blk + 1];
+        lens.sort();
+        lens.dedup();
+        for len in lens {
+            for (ra, at, da) in peer_variants(Role::Sender) {
+                if tier == Tier::Quick && (ra, at, da) != (true, true, false) && len != w * blk + 1 {
+                    continue;
+                }
+                let c = bcfg(base_cfg(Role::Sender, len, blk, ws), ra, at, da);
+                let blocks = len / blk + 1;
+                let f = match tier {
+                    Tier::Quick => if blocks <= 4 { 2 } else { 1 },
+                    Tier::Thorough => if blocks <= 5 && ws <= 2 { 3 } else { 2 },
+                };
+                cells.push(bspec(&c, f, &p));
+            }
+        }
+    }
+    cells
+}
+
+pub fn c02_b_cells(tier: Tier) -> Vec<Value> {
+    let p = ["C02"];
+    let mut cells = vec![];
+    let blk = 8usize;
+    for ws in 1..=4u16 {
+        let w = ws as usize;
+        let mut lens = vec![0, 1, blk, blk + 1, w * blk, w * blk + 1, (w + 1) * blk, 3 * w * blk + 1];
+        lens.sort();
+        lens.dedup();
+        for len in lens {
+            let c = bcfg(base_cfg(Role::Receiver, len, blk, ws), true, true, false);
+            let blocks = len / blk + 1;
+            let f = match tier {
+                Tier::Quick => if blocks <= 4 { 2 } else { 1 },
+                Tier::Thorough => if blocks <= 5 && ws <= 2 { 3 } else { 2 },
+            };
+            cells.push(bspec(&c, f, &p));
+        }
+    }
+    cells
 }
